@@ -4,7 +4,11 @@ import core
 import tie
 import lib_scope_alias as A
 
-RULE = ("histories of alias / copy / mutate operations over three variables holding lists and objects (<= 4 live containers), each "
+RULE = ("[identity stream: every ordered pair of list-building / object-building expressions, empty results included (empty slices, "
+        "empty rest / collect results, empty ranges, empty concatenations), must give two different containers (`===` false), the same "
+        "expression evaluated twice too; a container stored into one of its own slots (directly, through an alias, inside a new "
+        "container, by range assignment, destructuring, op-assignment, a call) is stored as itself] "
+        "histories of alias / copy / mutate operations over three variables holding lists and objects (<= 4 live containers), each "
         "operation followed by a full observation (print of every variable, === / !== between every two variables of one kind "
         "and between every stored child and every variable): breadth-first over distinct heap shapes — histories of up to "
         "3 (quick; 2 for the all-objects initial heap) / 4 (thorough) operations: from every distinct shape reachable with one "
@@ -149,6 +153,44 @@ def repeated_evaluation_scripts():
     return [((k[0], k[1], "repeated-evaluation"), s, o) for k, s, o in out]
 
 
+def identity_scripts():
+    """(1) two evaluations of a building operation never give the SAME container — also when the result is empty (an empty
+    result is still a new container: `===` tells).  (2) a container stored into one of its own slots is stored as itself
+    (shared by reference like any other value): the slot `===` the container and an update through one path shows through
+    the other.  Self-containing values are never printed or compared with `==` here."""
+    pre = ('xs := [1, 2]\nys := []\no := {"k": 1}\neo := {}\nfn rest(..r) { return r; }\nfn orest({..r}) { return r; }\n'
+           '[h_, ..t_] := [1]\n{"k": k_, ..or_} := o\n')
+    lists = ["[]", "xs[1:1]", "xs[0:0]", "xs[2:]", "xs[:0]", "ys[:]", "ys[0:0]", "rest()", "0 .. 0", "3 .. 1", "[] + []", "ys + ys", "[ys..]",
+             "xs[0:1]", "xs[:]", "rest(1)", "[xs..]", "xs + ys", "0 .. 1", "[1]"]
+    objs = ["{}", "{eo..}", "orest(eo)", "orest({})", "{o..}", '{"k": 1}', "orest(o)"]
+    out = []
+    for fam, es, held in (("list", lists, ["t_", "ys"]), ("object", objs, ["or_", "eo"])):
+        for e1 in es:
+            for e2 in es + held:
+                out.append(((fam, f"{e1} vs {e2}", "fresh-identity"),
+                            pre + f"a := {e1}\nb := {e2}\nprint(a === b)\nprint(a !== b)\nprint(a === a)\nc := a\nprint(c === a)\n", "false\ntrue\ntrue\ntrue\n"))
+            # the same expression twice: in a loop, through a function
+            out.append(((fam, f"{e1} twice", "fresh-identity"),
+                        pre + f"keep := []\nfor i in 0 .. 2 {{\n    keep += [{e1}]\n}}\nprint(keep[0] === keep[1])\nfn mk() {{ return {e1}; }}\nprint(mk() === mk())\n", "false\nfalse\n"))
+    selfs = [
+        ("list-slot", "v := [1, 2, 3]\nv[0] = v\nprint(v[0] === v)\nv[1] = 5\nprint(v[0][1])\nprint(v[0][0][0] === v)\nv[0][2] = 6\nprint(v[2])\n", "true\n5\ntrue\n6\n"),
+        ("list-slot-alias", "v := [1, 2, 3]\nw := v\nv[2] = w\nprint(v[2] === v)\nprint(w[2] === w)\nw[0] = 8\nprint(v[2][0])\n", "true\ntrue\n8\n"),
+        ("object-prop", 'p := {"a": 1}\np.self = p\nprint(p.self === p)\np.a = 7\nprint(p.self.a)\nprint(p["self"]["self"].a)\np.self.b = 2\nprint(p.b)\n', "true\n7\n7\n2\n"),
+        ("object-index", 'p := {"a": 1}\np["me"] = p\nprint(p["me"] === p)\np["me"]["a"] = 3\nprint(p.a)\n', "true\n3\n"),
+        ("list-in-own-item", "v := [1, 2]\nv[0] = [v]\nprint(v[0][0] === v)\nv[1] = 9\nprint(v[0][0][1])\n", "true\n9\n"),
+        ("object-in-own-list", 'p := {"a": 1}\np.l = [p]\nprint(p.l[0] === p)\np.a = 4\nprint(p.l[0].a)\n', "true\n4\n"),
+        ("list-in-own-object", 'v := [1, 2]\nv[0] = {"back": v}\nprint(v[0].back === v)\nv[1] = 6\nprint(v[0].back[1])\n', "true\n6\n"),
+        ("range-assign-self", "v := [1, 2, 3]\nv[0:1] = [v]\nprint(v[0] === v)\nv[1] = 5\nprint(v[0][1])\n", "true\n5\n"),
+        ("destructure-self", "v := [1, 2]\n[v[0], v[1]] = [v, 7]\nprint(v[0] === v)\nprint(v[0][1])\n", "true\n7\n"),
+        ("opassign-self", "v := [1, []]\nv[1] += [v]\nprint(v[1][0] === v)\nv[0] = 3\nprint(v[1][0][0])\n", "true\n3\n"),
+        ("param-self", "fn tie(a, b) {\n    a[0] = b\n    return 0\n}\nv := [1, 2]\ntie(v, v)\nprint(v[0] === v)\nv[1] = 4\nprint(v[0][1])\n", "true\n4\n"),
+        ("two-cycle", 'v := [1]\np := {"l": v}\nv[0] = p\nprint(v[0].l === v)\nprint(p.l[0] === p)\np.x = 2\nprint(v[0].l[0].x)\n', "true\ntrue\n2\n"),
+    ]
+    for name, src, exp in selfs:
+        out.append((("self", name, "self-reference"), src, exp))
+    return out
+
+
 def run(ctx, model_ok):
     thorough = ctx.tier == "thorough"
     bound = 4 if thorough else 3
@@ -190,6 +232,14 @@ def run(ctx, model_ok):
         ctx.dist("repeated_evaluation:" + tags[1])
     impl, dis = tie.run(ctx, [s[1] for s in rep], "repeated_evaluation", model_ok, project=tie.proj_full)
     judge(ctx, "repeated_evaluation", rep, impl, dis, reported)
+    # identity of results of building operations (empty results too); containers stored into their own slots
+    ident = identity_scripts()
+    for tags, src, exp in ident:
+        ctx.nontrivial(("identity", tags))
+        ctx.dist("identity:" + tags[2] + ":" + tags[0])
+    impl, dis = tie.run(ctx, [s[1] for s in ident], "identity", model_ok, project=tie.proj_full)
+    judge(ctx, "identity", ident, impl, dis, reported)
+    ctx.sample({"stream": "identity", "case": ident[1][0], "src": ident[1][1], "expected": ident[1][2]})
     # random longer histories
     n = 40000 if thorough else 4000
     rh = [A.random_history(ctx.rng, ctx.rng.choice(list(A.INITS)), ctx.rng.randrange(5, 13)) for _ in range(n)]
